@@ -159,7 +159,7 @@ let event (rest : string) : string =
   | "release" :: ws ->
     let (c, _) = parse_core_words ws in
     (match remove_first (same_compaction c) !st_og with
-     | None -> "E MISMATCH released a compaction that is not ongoing"
+     | None -> "E ok notongoing"   (* the Rust ignores release_compaction's error: the compaction was applied before its thread failed *)
      | Some og' -> st_og := og'; "E ok")
   | _ -> "E BAD " ^ rest
 
